@@ -123,3 +123,15 @@ package chain
 //@ spec frontierOfPool(c *momentumPool) store.Momentum = iface("store.Momentum", c.frontierStore)
 //@ func momentumPool.AddMomentumTransaction(c, insertLocker, transaction)
 //@   ensures[halts-on-unknown-spork] result == nil ==> frontierOfPool(c) != nil ==> forall k int :: 0 <= k && k < len(definedSporksOf(frontierOfPool(c))) ==> !enforcedUnknown(definedSporksOf(frontierOfPool(c))[k], frontierOfPool(c).idHeight)
+
+// ---- C06: reorganisation ------------------------------------------------------------------------------------------------------
+// RollbackTo pops the frontier until it is exactly the requested momentum (one DeleteMomentum broadcast per pop).
+//@ func momentumPool.RollbackTo(c, insertLocker, identifier)
+//@   requires c != nil
+//@   ensures[stops-exactly-at-target] result == nil ==> frontierOfPool(c).idHeight == identifier.Height
+//@   at-call broadcastDeleteMomentum assert[announces-the-popped-momentum] detailed != nil && detailed.Momentum == frontier
+
+// the unconfirmed pool is dropped on every momentum delete: no branch-dependent manager survives a rollback
+//@ func accountPool.DeleteMomentum(ap, detailed)
+//@   requires ap != nil
+//@   ensures[pool-dropped] len(ap.managers) == 0 && ap.managers != nil
